@@ -34,10 +34,15 @@ type Rand struct{}
 type Template struct{}
 type URL struct{}
 type Time struct{}
+type PS *S
+type LS []S
+type AR [2]T
+type CH chan T
 type A = T
 `
 
-var NamedPlain = []string{"T", "U", "S", "E", "F", "M", "Buffer", "Duration", "Rand", "Template", "URL", "Time"}
+// (defined types of every underlying kind: basic, struct, interface, func, map, pointer, slice, array, channel)
+var NamedPlain = []string{"T", "U", "S", "E", "F", "M", "Buffer", "Duration", "Rand", "Template", "URL", "Time", "PS", "LS", "AR", "CH"}
 var NamedGeneric = map[string]int{"List": 1, "Pair": 2}
 
 // World is a fabricated universe: any import path resolves to a package that declares Decls.
@@ -422,7 +427,7 @@ func (g *Gen) Expr(depth int) *Expr {
 			if g.R.Intn(4) == 0 {
 				// embedded named type by value or pointer
 				nt := g.named(0, false)
-				if nt.Name == "E" || nt.Name == "F" || nt.Name == "M" {
+				if nt.Name == "E" || nt.Name == "F" || nt.Name == "M" || nt.Name == "PS" || nt.Name == "LS" || nt.Name == "AR" || nt.Name == "CH" {
 					nt.Name = "S"
 				}
 				if used[nt.Name] {
